@@ -15,6 +15,7 @@ from __future__ import annotations
 
 import glob
 import gzip
+import itertools
 import json
 import os
 
@@ -276,6 +277,20 @@ def _lookup_job(job):
     return plat, n, bad
 
 
+def _sibling_job(group):
+    """One process, one spa after the other: platforms that share a pack TYPE number (inXE / inXE-2 / inXE-64K, ...) are
+    looked up in turn - first A's pairs, then B's, then A's again - by the real clients; each lookup must still load the
+    tables of the platform and versions its own FILES reply names."""
+    bad, n = [], 0
+    for plat, pairs in list(group) + list(group[:1]):
+        p_, k, b = _lookup_job((plat, pairs))
+        n += k
+        bad += [(cls + "|after-sibling", text + " (sibling platforms of the same pack type were connected before in this process)") for cls, text in b]
+        if bad:
+            break
+    return group, n, bad
+
+
 def _item_row(a):
     dd = a._decl
     eff = list(a.items) if getattr(a, "items", None) is not None else None
@@ -485,7 +500,36 @@ def run(ctx):
         nl += n
         for cls, text in bad:
             ctx.violation(f"C18|{cls}|{plat}", text, {"module": plat, "mode": "lookup"})
-    evals += nl
+    # siblings: platforms sharing a pack type number, connected one after the other in ONE process
+    by_type = {}
+    for plat, v in plats.items():
+        if v["cfg"] and v["log"]:
+            by_type.setdefault(lib.pack_module(plat).GeckoPack(None).type, []).append(plat)
+    sjobs = []
+    for typ, ps in sorted(by_type.items()):
+        if len(ps) < 2:
+            continue
+        for a, b in itertools.permutations(ps, 2):
+            va, vb = plats[a], plats[b]
+            # the versions both ship, and the ones only one of them ships (looked up on the other they must not resolve)
+            cs = sorted(set(va["cfg"]) | set(vb["cfg"]))
+            ls = sorted(set(va["log"]) | set(vb["log"]))
+            if ctx.quick:
+                cs = [c for c in cs if c in va["cfg"] and c in vb["cfg"]][-3:] + [c for c in cs if (c in va["cfg"]) != (c in vb["cfg"])][-2:]
+                ls = [l for l in ls if l in va["log"] and l in vb["log"]][-3:] + [l for l in ls if (l in va["log"]) != (l in vb["log"])][-2:]
+            if not cs or not ls:
+                continue
+            pa = [(c, va["log"][-1]) for c in cs] + [(va["cfg"][-1], l) for l in ls]
+            pb = [(c, vb["log"][-1]) for c in cs] + [(vb["cfg"][-1], l) for l in ls]
+            sjobs.append(((a, pa), (b, pb)))
+    ns = 0
+    for group, k, bad in core.pmap(ctx, _sibling_job, sjobs, chunksize=1):
+        ns += k
+        for cls, text in bad:
+            ctx.violation(f"C18|{cls}|{group[0][0]}", text, {"module": group[0][0], "mode": "sibling",
+                                                             "group": [[pl, [list(x) for x in prs]] for pl, prs in group]})
+    ctx.set("sibling_platform_lookups", ns)
+    evals += nl + ns
     ctx.set("client_lookups", nl)
     rjobs = []
     pl_list = [p for p, v in plats.items() if v["cfg"] and v["log"]]
@@ -557,6 +601,15 @@ def replay(ctx, data):
         job, n, bad = _facade_layout_job(tuple(data["combo"]))
         for cls, text in bad:
             ctx.violation(f"C18|{cls}|{job[0]}", text, data)
+        ctx.set("evaluations", 1)
+        ctx.set("distinct_nontrivial", 2)
+        ctx.set("rule", "replay")
+        return
+    if data.get("mode") == "sibling":
+        group = tuple((pl, [tuple(x) for x in prs]) for pl, prs in data["group"])
+        g_, n, bad = _sibling_job(group)
+        for cls, text in bad:
+            ctx.violation(f"C18|{cls}|{group[0][0]}", text, data)
         ctx.set("evaluations", 1)
         ctx.set("distinct_nontrivial", 2)
         ctx.set("rule", "replay")
